@@ -121,8 +121,14 @@ def oracle_executed(o, refres):
     for e in o.bodies:
         counts[e['node']] = counts.get(e['node'], 0) + 1
     success = refres['ok'] and o.outcome[0] == 'value'
+    # a node that succeeded in one iteration and failed in a later one: readers outside the iterating subgraph
+    # (e.g. implicit readers of the input node) may legitimately have run after the first iteration
+    late_failure = any(any(i['outcome'] in ('ok', 'rec') for i in inv) and inv[-1]['outcome'] not in ('ok', 'rec')
+                       and inv[-1]['epoch'] > 0 for inv in refres['invocations'].values())
     for nid, c in counts.items():
         exp = len(refres['invocations'].get(nid, []))
+        if exp == 0 and late_failure and nid in refres['demanded']:
+            continue
         if c > exp:
             out.append(('too-many-invocations', f'{nid}: {c} > {exp}'))
         elif success and nid in refres['certain'] and c < exp:
